@@ -68,7 +68,8 @@ CLAIMS["C15"] = {
             "name (0..=3 entries, duplicate keys, non-pair entries, key kinds) against a Vec model; non-list targets of "
             "every kind never panic. E2: alist lookup by value / name on an abstract cell; Value::append / list build the "
             "documented chain (start at the head cell, one cell per element, given tail as the last cdr, tail itself for no "
-            "elements) for any number of elements.",
+            "elements) for any number of elements. "
+            "E2 c15_clone_protocol / c15_eq_protocol: the hand-written Clone and PartialEq of Cons as cell walks (one-step induction + base case): structural copy cell by cell with the tail cloned last, source untouched; comparison false at the first differing car, advancing on two pair cdrs, else the comparison of exactly the two cdrs.",
     "note": "E1 chains longer than 4 cells, the consuming iterator and the cloning conversions are "
             "outside (CBMC runs out of memory on drop/clone glue of Value; measured). Trusted: Kani/CBMC, z3.",
 }
@@ -150,7 +151,8 @@ CLAIMS["C18"] = {
     "text": "No panic is reachable in any deserialize_* method or access step for any input value, except the documented "
             "expect in next_value_seed, reachable only when the visitor asks for a value after the end of the map; "
             "all rejections are message errors, classified as Category::Data; integer serialisation keeps the value "
-            "(one half of self-consistency).",
+            "(one half of self-consistency). "
+            "c18_error_impls: every method of impl de::Error / ser::Error for serde_lexpr::Error found in the current source builds a message error (the kind classify maps to Category::Data).",
     "note": "The re-serialisation self-consistency clause for structured values is outside the solver (whole Value "
             "trees); a native serde corpus (3469 cases) is used as confirmation only. Visitors are abstract (arbitrary result), so totality of user visitors is not claimed.",
 }
@@ -191,7 +193,8 @@ CLAIMS["C06"] = {
             "result, error category and consumed prefix for byte-slice, stream and (valid UTF-8) str input. E2 scanner "
             "claims: the slice and the stream implementation of the symbol and R6RS string scanners each meet ONE "
             "specification for inputs of any length (terminators, one byte per step, exact range / copied bytes, in-bounds "
-            "slicing, I/O errors at the failing byte).",
+            "slicing, I/O errors at the failing byte). "
+            "Reader protocol: the digit-loop step claims of the number scanner (c05_*_step) account for every byte consumed and hand the fraction / exponent scanners the undisturbed lookahead; a discard() known to follow a consuming read without a peek() in between (a no-op for a stream, a skipped byte for a slice) is a reachable-panic finding in every claim that uses the reader model.",
     "note": "IoRead reads through io::Bytes one byte per read call, so chunking schedules are immaterial (stated, not "
             "explored); Interrupted is retried inside std's Bytes (trusted). Whole-parser slice-vs-stream equality on "
             "long inputs is not executed.",
@@ -217,7 +220,8 @@ CLAIMS["C10"] = {
             "error codes, depth budget and empty/non-empty outcome. Accessors: one step of datum::ListIter::next from each "
             "of its 4 states over an abstract cell yields what the value's own accessors expose (car with its span; pair -> "
             "next cell, () -> end, anything else incl. #nil -> None then the tail once); the four Datum constructors attach "
-            "span information of the same shape as the value.",
+            "span information of the same shape as the value. "
+            "Shape (c10_list_meta_shape, c10_vector_meta_shape): the datum builders store every element / dotted tail together with its OWN span information at the same place of the value chain and the span chain (one-step induction + base case over cells and span nodes as heap aggregates); the two heads / vectors are what is returned.",
     "note": "The accessor claim assumes span information shaped as the builders shape it (SpanInfo::Cons / Vec exactly "
             "where the value is a pair / vector); vector_iter and as_pair are not separate claims.",
 }
@@ -228,7 +232,8 @@ CLAIMS["C11"] = {
     "text": "E1: for every buffer <= 5 bytes, consumed count and optional peek, SliceRead, StrRead and IoRead report the "
             "same line / column / byte offset, equal to the specification. E2: next_datum records a datum's start right "
             "after the preceding trivia and its end right after its last byte for all token kinds (quote shorthand head = "
-            "the shorthand characters).",
+            "the shorthand characters). "
+            "Shape claims of C10: each element's span information sits where the element sits, a dot-initial name's span runs from before the dot to after the name, tails go to the cdr slots; native `spans` domain (span tree vs value tree, re-reading every covered text) as confirmation.",
     "note": "Containment / ordering of sibling spans and 're-parse of the covered text' are implied only for the top-level "
             "datum of each recursion; not executed on arbitrary layouts (native span dump is used for replay only).",
 }
@@ -271,7 +276,8 @@ CLAIMS["C19"] = {
     "technique": "symbolic execution of Error::classify / From<Error> and of the scanners' EOF paths (z3); Kani on reported positions",
     "text": "classify and io::Error conversion for all 19 codes; an error decided on a read at end of input is an EOF-"
             "category error in the number scanner and the 11 reader kernels; the `.name` branch of the list builders is never "
-            "taken at the end of input; every reported position lies inside the input (E1).",
+            "taken at the end of input; every reported position lies inside the input (E1). "
+            "c19_error_constructors: Parser::error, Parser::peek_error and read::error give Error::syntax the code they were given and line AND column of exactly one position() / peek_position() result; Error::syntax stores exactly these.",
     "note": "Two open known findings (character names / hex scalars cut at end of input) are excluded by a named predicate.",
 }
 
